@@ -257,8 +257,10 @@ def model_check(run, thorough_cfg=None):
     res = run_tlc('MdibMC', 'Mdib_mc.cfg', coverage=True, timeout=3000)
     run.add_tlc(res, MC_ACTIONS)
     if thorough_cfg and not run.quick:
-        res = run_tlc('MdibMC', thorough_cfg, coverage=False, timeout=7200)
-        run.add_tlc(res)
+        # two exhaustive runs that finish in minutes: wide (2 transactions of 2 calls, three kept entities) and deep
+        # (3 transactions of 1 call); 3 x 2 does not finish within hours (> 10^8 states)
+        for cfg in (thorough_cfg, 'Mdib_mc_deep.cfg'):
+            run.add_tlc(run_tlc('MdibMC', cfg, coverage=False, timeout=3600))
 
 
 def run_family(run, pid, extra_behaviours=None, with_model=True, lifecycle=True, num=None, fold=2, prefixes=None):
